@@ -401,7 +401,7 @@ def _smooth_case(c, case):
             nv, ni = len(c.violations), len(c.inconclusive)
             okA = c.prove(f"agree{list(idx)}: no interface => smoothing predicate of the code is false", z3.Implies(noif, z3.Not(C)),
                           dom + sc.axioms_for([C], kinds=("sqrt",)), replay, key=key + ":agree")
-            if not okA and len(c.violations) == nv and bmode in ("sym", "inf", "zero"):
+            if not okA and len(c.violations) == nv and bmode in ("inf", "zero"):
                 # the predicate can hold without an interface but the witness happened to have equal values: ask for a
                 # witness of the full claim on the tanh-free slice (beta = 0 / inf), where the values are piecewise polynomial
                 sm, pl = o.arg(1), sc.toz(plain[idx])
@@ -426,7 +426,7 @@ def _smooth_case(c, case):
     mid = tuple(s // 2 for s in shape)
     G2 = g0[mid] * g0[mid] + g1[mid] * g1[mid]
     c.witness("twin: cell with an interface exists", z3.And(G2 > 0, (E - r[mid]) * (E - r[mid]) < k2 * G2), dom)
-    ramp = [r[idx] == z3.RealVal(Fraction(2 + 3 * idx[0] + idx[1], 10)) for idx in np.ndindex(*shape)]
+    ramp = [r[idx] == z3.RealVal(min(Fraction(2 + 3 * idx[0] + idx[1], 10), Fraction(1))) for idx in np.ndindex(*shape)]
     om, pm = out[mid], plain[mid]
     c.witness("twin: assumptions satisfiable", True, dom + ramp)
     # the smoothing branch does something: on some concrete legal input the interpreted smoothed value differs from the plain one
